@@ -23,7 +23,8 @@ Cnt(mask) == Cardinality(Ones(mask))
 InSet(raw, j) == {i \in 1..Len(raw) : raw[i][j] = 1}
 
 (* number of intervals np.arange(lo, hi + w, w) yields in exact arithmetic *)
-WidthCount(lo, hi, upw) == ((hi - lo + upw - 1) \div upw) + 1
+(* (none at all when the lower limit lies a whole width or more above the upper one) *)
+WidthCount(lo, hi, upw) == IF hi + upw <= lo THEN 0 ELSE ((hi - lo + upw - 1) \div upw) + 1
 
 (* the 1-based ideal interval of value v for [a,b) resp. (a,b] intervals starting at lo *)
 IdealIdx(v, lo, upw, ropen) ==
